@@ -1,6 +1,8 @@
 import Proofs.Codec
 import Proofs.Chunks
 import Proofs.FrameOps
+import Proofs.DescendSpec
+import Proofs.Traverse
 /-! C02 — stored LRUs read back byte-identical, any stem length. Proved so far: the block codec
     round-trips; a stem of *any* length written by `writeNew` (head + tail blocks) reads back
     byte-identical; existing stems are untouched by later insertions. The search/traversal agreement
@@ -31,6 +33,28 @@ theorem C02_old_stems (s : State) (stem : Bytes) (p : Nat) (c : Bool) (i : Nat) 
 theorem C02_addLru_monotone (s : State) (stems : LRU) (flag : Bool) (h0 : 0 < s.trie.size) (hne : stems ≠ []) :
     s ⊑ (s.addLru stems flag).1 ∧ (s.addLru stems flag).2.1 < (s.addLru stems flag).1.trie.size :=
   addLru_le s stems flag h0 hne
+
+/-! #### the three access paths agree (for every state satisfying the shape invariant `Shape`, which
+     `add_lru` preserves — Proofs/Insert) -/
+
+/-- top-down look-up finds exactly the LRUs of the finite map denoted by the tree, at their block -/
+theorem C02_locate {s : State} {t : T} (h : Shape s t) (stems : LRU) (hne : stems ≠ []) (b : Nat) :
+    s.lruNode stems = some b ↔ (stems, b) ∈ t.entries s [] := lruNode_iff_entries h stems hne b
+
+/-- no LRU is stored twice: a path determines its block -/
+theorem C02_no_duplicates {s : State} {t : T} (h : Shape s t) (p : LRU) (b₁ b₂ : Nat)
+    (h₁ : (p, b₁) ∈ t.entries s []) (h₂ : (p, b₂) ∈ t.entries s []) : b₁ = b₂ :=
+  entries_path_injective h.ord h.nodup h₁ h₂
+
+/-- the full traversal is the structural pre-order of the tree: it meets every node exactly once… -/
+theorem C02_traversal {s : State} {t : T} (h : Shape s t) :
+    s.dfsIter none false = t.pre s [] ∧ ((s.dfsIter none false).map (·.1)).Nodup ∧
+    ∀ a, a ∈ (s.dfsIter none false).map (·.1) ↔ a ∈ t.addrs :=
+  ⟨dfsIter_root h, dfsIter_nodup h, dfsIter_mem h⟩
+
+/-- …and the blocks it meets are exactly the blocks of the finite map -/
+theorem C02_traversal_covers_map {s : State} {t : T} (_h : Shape s t) :
+    ((t.entries s []).map (·.2)).Perm t.addrs := entries_addrs_perm t []
 
 /-- non-vacuity: lengths 74, 75, 148, 149 are instances, not cases -/
 example : ∀ n ∈ [1, 73, 74, 75, 147, 148, 149, 222, 223], blocksFor (List.replicate n 65) = (n + 73) / 74 := by decide
